@@ -1132,15 +1132,18 @@ func (z *Decimal) SetFloat64(x float64) *Decimal {
 	z.mant = z.mant.setUint64(1<<52 | (math.Float64bits(fmant) & (1<<52 - 1)))
 	z.exp = int32(len(z.mant))*_DW - int32(dnorm(z.mant))
 	if exp2 != 0 {
-		// multiply / divide by 2**exp with increased precision
-		z.prec++
-		t := new(Decimal).SetPrec(uint(z.prec))
+		// Multiply / divide by 2**exp exactly, then round once: the decimal
+		// expansion of a float64 has fewer than 800 digits, and so has the
+		// power of two.
+		prec := z.prec
+		z.prec = 800
+		t := new(Decimal).SetPrec(800)
 		if exp2 < 0 {
 			z = z.Quo(z, t.pow2(uint64(-exp2)))
 		} else {
 			z = z.Mul(z, t.pow2(uint64(exp2)))
 		}
-		z.prec--
+		z.prec = prec
 	}
 	z.round(0)
 	return z
